@@ -20,10 +20,69 @@ from common import Case, Node
 
 UNIV = ["s:a", "s:b", "s:ab", "s:A", "i:7", "i:0", "e:1", "e:1", "p:1", "s:", "t:1,2", "s:a1", "i:3"]
 
-# (pattern, flags, form)   form: how the match argument is passed to nutree
+# ---------------------------------------------------------------------------
+# Regular expressions as SYNTAX TREES.  The pattern string handed to nutree (and to the real `re` for the oracle) is
+# rendered from the tree; the Coq model receives the tree and decides `fullmatch` with its own engine (Regex.v).
+#   ("eps",) ("chr", c) ("any",) ("digit",) ("set", neg, [(lo, hi), ...]) ("cat", a, b) ("alt", a, b)
+#   ("star", a) ("plus", a) ("opt", a)
+# ---------------------------------------------------------------------------
+def rx_render(t, ctx="top"):
+    k = t[0]
+    if k == "eps":
+        return ""
+    if k == "chr":
+        return re.escape(t[1])
+    if k == "any":
+        return "."
+    if k == "digit":
+        return r"\d"
+    if k == "set":
+        return "[" + ("^" if t[1] else "") + "".join(re.escape(lo) if lo == hi else f"{lo}-{hi}" for lo, hi in t[2]) + "]"
+    if k == "cat":
+        s = rx_render(t[1], "cat") + rx_render(t[2], "cat")
+        return f"(?:{s})" if ctx == "rep" else s
+    if k == "alt":
+        s = rx_render(t[1], "alt") + "|" + rx_render(t[2], "alt")
+        return f"(?:{s})" if ctx in ("cat", "rep") else s
+    if k in ("star", "plus", "opt"):
+        return rx_render(t[1], "rep") + {"star": "*", "plus": "+", "opt": "?"}[k]
+    raise ValueError(t)
+
+
+def rx_coq(t):
+    k = t[0]
+    if k == "eps":
+        return "REps"
+    if k == "chr":
+        return f"(RChr {ord(t[1])})"
+    if k == "any":
+        return "RAny"
+    if k == "digit":
+        return "RDigit"
+    if k == "set":
+        return f"(RCls {H.coq_bool(t[1])} {H.coq_list(f'({ord(lo)}, {ord(hi)})' for lo, hi in t[2])})"
+    if k in ("cat", "alt"):
+        return f"({'RCat' if k == 'cat' else 'RAlt'} {rx_coq(t[1])} {rx_coq(t[2])})"
+    if k in ("star", "plus", "opt"):
+        return f"({ {'star': 'RStar', 'plus': 'RPlus', 'opt': 'ROpt'}[k] } {rx_coq(t[1])})"
+    raise ValueError(t)
+
+
+def _c(ch):
+    return ("chr", ch)
+
+
+_ANYSTAR = ("star", ("any",))
+# (syntax tree | raw pattern string, flags, form)   form: how the match argument is passed to nutree
 REGEXES = [
-    ("a", 0, "str"), ("a.*", 0, "str"), (".*b", 0, "str"), ("[ab]+", 0, "str"), (".", 0, "str"), ("", 0, "str"),
-    ("a", re.IGNORECASE, "tuple"), (r".*\d", 0, "list"), ("b|E1", 0, "str"), (".*", 0, "str"), ("x", 0, "str"),
+    (_c("a"), 0, "str"), (("cat", _c("a"), _ANYSTAR), 0, "str"), (("cat", _ANYSTAR, _c("b")), 0, "str"),
+    (("plus", ("set", False, [("a", "a"), ("b", "b")])), 0, "str"), (("any",), 0, "str"), (("eps",), 0, "str"),
+    (_c("a"), re.IGNORECASE, "tuple"), (("cat", _ANYSTAR, ("digit",)), 0, "list"),
+    (("alt", _c("b"), ("cat", _c("E"), _c("1"))), 0, "str"), (_ANYSTAR, 0, "str"), (_c("x"), 0, "str"),
+    (("star", ("cat", _c("a"), _c("b"))), 0, "str"), (("cat", ("opt", _c("a")), _c("b")), 0, "tuple"),
+    (("plus", ("set", True, [("a", "a")])), 0, "str"), (("cat", ("set", False, [("a", "z")]), ("opt", ("digit",))), re.IGNORECASE, "list"),
+    # outside the modelled syntax: truth-table path
+    ("a{1,2}b?", 0, "str"), ("(?i)ab?", 0, "str"), (r"\w\d", 0, "list"),
 ]
 PREDS = ["true", "false", "leaf", "depth_odd", "pos_mod3", "has_kids_list", "name_nonempty", "is_clone", "none"]
 
@@ -71,6 +130,10 @@ def calc_of(desc, obj):
 # ---------------------------------------------------------------------------
 # tree construction
 # ---------------------------------------------------------------------------
+_APPLY: dict = {}       # id(tree) -> closure applying further ops to that tree (phases)
+_APPLY_KEEP: list = []
+
+
 def build_tree(desc, U=None):
     U = U or B.make_universe(desc["univ"])
     tree = B.new_tree(desc)
@@ -121,43 +184,68 @@ def build_tree(desc, U=None):
             x = x._parent
         return False
 
-    for op in desc.get("ops", []):
-        if not created:
-            break
-        if op[0] in ("mv", "mvc"):
-            if typed:          # TypedNode.move_to is not implemented
-                continue
-            if op[0] == "mvc":     # a node that has a clone created later: moving it behind that clone makes index order != pre-order
-                cands = [n for i, n in enumerate(created) if alive(n) and
-                         any(alive(m) and m._data_id == n._data_id and type(m._data_id) is type(n._data_id) for m in created[i + 1:])]
-                if not cands:
+    def apply_ops(ops):
+        for op in ops:
+            if not created:
+                break
+            if op[0] in ("mv", "mvc"):
+                if typed:          # TypedNode.move_to is not implemented
                     continue
-                src = cands[op[1] % len(cands)]
-                op = ["mv", 0, op[2], None]
-            else:
-                src = created[op[1] % len(created)]
-            tgt = tree._root if op[2] < 0 else created[op[2] % len(created)]
-            if not alive(src) or has_equal_sibling(src) or (tgt is not tree._root and not alive(tgt)) or in_branch(tgt, src):
-                continue
-            if any(c._data_id == src._data_id and c is not src for c in (tgt._children or [])):
-                continue
-            before = op[3]
-            if before is not None:
-                n_ch = len(tgt._children or [])
-                if n_ch == 0:
-                    before = None
+                if op[0] == "mvc":     # a node that has a clone created later: moving it behind that clone makes index order != pre-order
+                    cands = [n for i, n in enumerate(created) if alive(n) and
+                             any(alive(m) and m._data_id == n._data_id and type(m._data_id) is type(n._data_id) for m in created[i + 1:])]
+                    if not cands:
+                        continue
+                    src = cands[op[1] % len(cands)]
+                    op = ["mv", 0, op[2], None]
                 else:
-                    before = before % n_ch
-            src.move_to(tree if tgt is tree._root else tgt, before=before)
-        elif op[0] == "rm":
-            src = created[op[1] % len(created)]
-            if alive(src) and not has_equal_sibling(src):
-                src.remove()
-        elif op[0] == "add":
-            tgt = tree._root if op[1] < 0 else created[op[1] % len(created)]
-            if tgt is not tree._root and not alive(tgt):
-                continue
-            add(tgt, op[2], "child" if typed else None, op[3], op[4] if len(op) > 4 else None)
+                    src = created[op[1] % len(created)]
+                tgt = tree._root if op[2] < 0 else created[op[2] % len(created)]
+                if not alive(src) or has_equal_sibling(src) or (tgt is not tree._root and not alive(tgt)) or in_branch(tgt, src):
+                    continue
+                if any(c._data_id == src._data_id and c is not src for c in (tgt._children or [])):
+                    continue
+                before = op[3]
+                if before is not None:
+                    n_ch = len(tgt._children or [])
+                    if n_ch == 0:
+                        before = None
+                    else:
+                        before = before % n_ch
+                src.move_to(tree if tgt is tree._root else tgt, before=before)
+            elif op[0] == "rm":
+                src = created[op[1] % len(created)]
+                if alive(src) and not has_equal_sibling(src):
+                    src.remove()
+            elif op[0] == "add":
+                tgt = tree._root if op[1] < 0 else created[op[1] % len(created)]
+                if tgt is not tree._root and not alive(tgt):
+                    continue
+                add(tgt, op[2], "child" if typed else None, op[3], op[4] if len(op) > 4 else None)
+            # --- re-ordering / re-keying mutators (nothing is registered or unregistered) ---
+            elif op[0] == "sort":
+                tree.sort(reverse=bool(op[1]), deep=bool(op[2]))
+            elif op[0] == "sortc":
+                src = created[op[1] % len(created)]
+                if alive(src):
+                    src.sort_children(reverse=bool(op[2]), deep=bool(op[3]))
+            elif op[0] in ("setdata", "setid", "rename"):
+                src = created[op[1] % len(created)]
+                if not alive(src):
+                    continue
+                try:        # refusals (uniqueness, ambiguous clone decision, not a str node) leave the tree unchanged
+                    if op[0] == "setdata":
+                        src.set_data(U.objs[op[2] % len(U.objs)], data_id=op[3], with_clones=op[4])
+                    elif op[0] == "setid":
+                        src.set_data(None, data_id=op[2], with_clones=op[3])
+                    else:
+                        src.rename(op[2])
+                except Exception:  # noqa: BLE001
+                    pass
+
+    apply_ops(desc.get("ops", []))
+    _APPLY[id(tree)] = apply_ops
+    _APPLY_KEEP.append(tree)
     return tree, U
 
 
@@ -229,22 +317,29 @@ class Prop:
     coq_prop = "Properties/C09.v"
     case_module = "CaseC09"
     case_vo = "theories/Cases/CaseC09.vo"
-    run_fn = "run09"
+    run_fn = "run09s"
     shard = 19
     rule = ("trees with clones: every ordered forest with <= N nodes (N=4 quick, 5 thorough) under 6 labelings (distinct strings; clones in "
             "different parents; all leaves clones of each other; equal-comparing objects; explicit int/str data_ids and node_ids colliding with int data; falsy data 0 / '') "
             "x {as built, siblings created last-to-first, a clone removed / re-added / moved, a clone moved behind its later clone} plus seeded random trees (<= 14 nodes quick, <= 30 "
             "thorough; plain and typed; default, name-based and hash-mod-7 calc_data_id) shuffled by random moves/removals/additions so the "
-            "clone index order differs from pre-order; per tree: Node.find_all/find_first from every node x 11 regular expressions (str, "
-            "(str,flags), [str,flags]) + 9 callbacks + identity matches x add_self x max_results in {None,0,1..5}; the same by data and "
+            "clone index order differs from pre-order; per tree: Node.find_all/find_first from every node x 18 regular expressions (15 sent to the model as syntax trees - str, "
+            "(str,flags), [str,flags], IGNORECASE - and decided by the model's own fullmatch; 3 outside the modelled syntax as truth tables) + 9 callbacks + identity matches x add_self x max_results in {None,0,1..5}; the same by data and "
             "data_id (present, absent, falsy); Tree.find_all/find_first by match, data, data_id, node_id x max_results; argument conflicts; "
-            "Node.is_clone / get_clones of every node; tree[key], key in tree, del tree[key] for every key kind (data object, int/str data_id, node_id, float/bool/tuple, absent, "
+            "Node.is_clone / get_clones of every node; HISTORIES ON ONE TREE OBJECT: on the largest and the random trees the queries are asked, the same tree is re-ordered / re-keyed "
+            "(move_to, Tree.sort, sort_children, set_data, rename - nothing registered or unregistered) and all tree-wide searches, a "
+            "node-level sweep, clone queries and index access are asked again, up to two times; "
+            "tree[key], key in tree, del tree[key] for every key kind (data object, int/str data_id, node_id, float/bool/tuple, absent, "
             "ambiguous, None, a Node).  A case is one tree with all its queries; distinct = distinct (universe, nodes, ops, calc); "
             "non-trivial = >= 3 nodes and a clone group of size >= 2")
     exhaustive_note = "all shapes <= N nodes (N=4 quick) x 6 labelings x 4 shuffles, every start node, every matcher, k in {None,1,2,3}"
     assumptions = [
         "identity of nodes is the allocation index recorded by a harness-side wrapper of Node.__init__",
-        "re.fullmatch is a pure predicate of the node name (the harness evaluates the real `re` and passes the truth table)",
+        "patterns inside the modelled regex syntax (literals, `.`, sets/ranges/negated sets, \\d, concatenation, |, *, +, ?, IGNORECASE on "
+        "ASCII) are sent to the model as syntax trees and decided by the model's own fullmatch (proved = membership of the whole name in "
+        "the pattern's language); the pattern STRING is rendered from the tree, `re`'s parser is trusted to read it back as that tree",
+        "patterns outside that syntax: re.fullmatch is a pure predicate of the node name (the harness evaluates the real `re` and passes "
+        "the truth table)",
         "callbacks are pure predicates of the node",
         "registry and clone index are read from tree._node_by_id / tree._nodes_by_data_id; their well-formedness (hypothesis of the "
         "index-path theorems) is decided by the model's state_wf_b on every case",
@@ -259,8 +354,11 @@ class Prop:
               "then data_id, then data and answers KeyError / the node / AmbiguousMatchError according to the number of nodes carrying "
               "the id, ValueError for a Node key.  Tied to /repo on every run by a correspondence check (model evaluated by vm_compute "
               "on forest + registry + index observed from the implementation) and a pointer-walking Python oracle."),
-        note=("Trusted: Coq kernel + vm_compute; hand-written model theories/Forest/Search.v (tied by the correspondence only); harness; "
-              "`re` and callbacks as pure predicates.  The pre-order of a branch is Rose.v's structural `pre`/`pre_f`; the model's "
+        note=("Trusted: Coq kernel + vm_compute; hand-written model theories/Forest/Search.v + Regex.v (tied by the correspondence only); harness; "
+              "callbacks as pure predicates; `re` only as the parser of the rendered pattern strings and for the three patterns outside the "
+              "modelled syntax ('name FULLY matches' is a theorem: fullmatchb <-> the whole name is in the language; re.match = some prefix, "
+              "shown different).  Not modelled: flags other than IGNORECASE, Unicode case folding / digit classes, negative max_results, "
+              "the system root with add_self.  The pre-order of a branch is Rose.v's structural `pre`/`pre_f`; the model's "
               "traversal mirrors Node._iter_pre and is proved equal to it.  Print Assumptions: closed under the global context."),
         technique="Coq proof about an executable Gallina model + differential correspondence check (vm_compute) + Python oracle",
         design_ref="DESIGN.md section 6 (C09)",
@@ -309,12 +407,16 @@ class Prop:
                         if 2 < n < nmax and si % 2 != (li + shi) % 2:   # middle sizes: two of the four shuffles, rotating
                             continue
                         nodes = _label(shape, lab)
-                        yield dict(univ=UNIV, calc=None, typed=False, nodes=nodes, ops=ops, rev=rev, mode="full", ks=_k(ks))
+                        d = dict(univ=UNIV, calc=None, typed=False, nodes=nodes, ops=ops, rev=rev, mode="full", ks=_k(ks))
+                        if n >= 3 and si == 0:      # query - mutate - query again on the same tree object
+                            d["phases"] = PHASES[(li + shi) % len(PHASES)][: (2 if n >= nmax else 1)]
+                        yield d
         # typed trees (TypedNode / TypedTree share the search code; the system root and add() differ)
         for n in range(1, 4 if tier == "quick" else 5):
             for shi, shape in enumerate(H.forests(n)):
                 nodes = _label(shape, lambda i, d, s, t: ((1 if not t else [0, 2, 3][d % 3]), ["x", "y"][(i + s) % 2], None, None))
-                yield dict(univ=UNIV, calc=None, typed=True, nodes=nodes, ops=[], rev=bool(shi % 2), mode="full", ks=_k(ks))
+                yield dict(univ=UNIV, calc=None, typed=True, nodes=nodes, ops=[], rev=bool(shi % 2), mode="full", ks=_k(ks),
+                           phases=([[["sort", bool(shi % 2), True]], [["sortc", 0, True, False], ["rename", 1, "a"]]] if n >= 2 else []))
         nrand = 30 if tier == "quick" else 160
         nmaxr = 14 if tier == "quick" else 30
         for j in range(nrand):
@@ -343,11 +445,36 @@ class Prop:
             # an identity-hashed object has a different hash in every process: under hash-mod-7 ids the clone structure
             # would not be reproducible from the description, so a value-hashed dataclass takes its place there
             univ = [("d:1" if u == "p:1" else u) for u in UNIV] if calc == "mod7" else UNIV
-            yield dict(univ=univ, calc=calc, typed=typed, nodes=nodes, ops=ops, rev=rng.random() < 0.5,
-                       mode="sample", qseed=rng.randrange(1 << 30), nq=60 if tier == "quick" else 90,
+            phases = []
+            for _ in range(rng.randint(1, 2)):
+                ph = []
+                for _ in range(rng.randint(1, 3)):
+                    r = rng.random()
+                    if r < 0.35:
+                        ph.append(["mv", rng.randrange(n), rng.choice([-1] + list(range(n))), rng.choice([None, 0, 0, 1])])
+                    elif r < 0.5:
+                        ph.append(["sort", rng.random() < 0.5, rng.random() < 0.7])
+                    elif r < 0.65:
+                        ph.append(["sortc", rng.randrange(n), rng.random() < 0.5, rng.random() < 0.5])
+                    elif r < 0.8:
+                        ph.append(["setdata", rng.randrange(n), rng.randrange(nl), rng.choice([None, None, 7, "a"]),
+                                   rng.choice([None, True, False])])
+                    elif r < 0.9:
+                        ph.append(["setid", rng.randrange(n), rng.choice([7, 3, "a", "k", 0]), rng.choice([None, True, False])])
+                    else:
+                        ph.append(["rename", rng.randrange(n), rng.choice(["a", "b", "ab", "zz"])])
+                phases.append(ph)
+            yield dict(univ=univ, calc=calc, typed=typed, nodes=nodes, ops=ops, rev=rng.random() < 0.5, phases=phases,
+                       mode="sample", qseed=rng.randrange(1 << 30), nq=48 if tier == "quick" else 80,
                        ks=_k([None, 0, 1, 2, 3, 4, 5]))
 
     def shrink_candidates(self, desc):
+        phases = desc.get("phases", [])
+        for i in range(len(phases)):
+            yield dict(desc, phases=phases[:i] + phases[i + 1:])
+            for j in range(len(phases[i])):
+                if len(phases[i]) > 1:
+                    yield dict(desc, phases=phases[:i] + [phases[i][:j] + phases[i][j + 1:]] + phases[i + 1:])
         ops = desc.get("ops", [])
         for i in range(len(ops)):
             yield dict(desc, ops=ops[:i] + ops[i + 1:])
@@ -362,8 +489,28 @@ class Prop:
 
     # ----- one case ---------------------------------------------------------
     def run(self, desc) -> Case:
+        """One tree object; phase 0 asks every query on the tree as built, every later phase first mutates the SAME
+        tree (moves, sorts, set_data / rename: nothing is registered or unregistered) and asks again.  Every phase is
+        one model case (the state observed at that moment); the observation is the list of the phases' answers."""
         _LOCAL.clear()
         tree, U = build_tree(desc)
+        parts = [self.one_phase(tree, U, desc, later=False)]
+        for ops in desc.get("phases", []):
+            _APPLY[id(tree)](ops)
+            parts.append(self.one_phase(tree, U, desc, later=True))
+        _APPLY.pop(id(tree), None)
+        # the text before the first ':' is the category failing inputs are grouped by
+        fails = [(f.replace(": ", f" on the same tree after mutation (phase {i}): ", 1) if i else f)
+                 for i, pt in enumerate(parts) for f in pt["fails"]][:3]
+        st0 = parts[0]["stats"]
+        stats = dict(st0, phases=len(parts), queries=(sum(pt["nsub"] for pt in parts) // 100) * 100)
+        return Case(desc=desc, coq_input=H.coq_list(pt["coq"] for pt in parts), impl_obs=[[True, pt["obs"]] for pt in parts],
+                    oracle_fail="; ".join(fails) or None, nontrivial=st0.pop("_nontrivial"),
+                    key=H.digest([desc["univ"], desc["nodes"], desc.get("ops"), desc.get("calc"), desc.get("typed"), desc.get("rev"),
+                                  desc.get("phases")]),
+                    stats={k: v for k, v in stats.items() if not k.startswith("_")})
+
+    def one_phase(self, tree, U, desc, later):
         nodes = walk(tree._root)
         for n in nodes:
             lid(n)
@@ -372,12 +519,15 @@ class Prop:
 
         # --- matchers: python objects + truth tables
         matchers = []          # (python match argument, coq term, predicate for the oracle)
-        for pat, flags, form in REGEXES:
+        for rxt, flags, form in REGEXES:
+            pat = rxt if isinstance(rxt, str) else rx_render(rxt)
             rx = re.compile(pat, flags)
-            table = [s for s in names if rx.fullmatch(s)]
             arg = pat if form == "str" else ((pat, flags) if form == "tuple" else [pat, flags])
-            matchers.append((arg, "(MRe " + H.coq_list(H.coq_text(s) for s in table) + ")",
-                             (lambda rx: lambda n: rx.fullmatch(f"{n._data}") is not None)(rx)))
+            if isinstance(rxt, str):        # arbitrary pattern: the real `re` supplies the truth table
+                term = "(MRe " + H.coq_list(H.coq_text(s) for s in names if rx.fullmatch(s)) + ")"
+            else:                           # modelled syntax: the model decides fullmatch itself
+                term = f"(MRx {H.coq_bool(form != 'str')} {H.coq_bool(bool(flags & re.IGNORECASE))} {rx_coq(rxt)})"
+            matchers.append((arg, term, (lambda rx: lambda n: rx.fullmatch(f"{n._data}") is not None)(rx)))
         for pn in PREDS:
             fn = make_pred(pn, ctx)
             table = [lid(n) for n in nodes if fn(n)]
@@ -408,24 +558,31 @@ class Prop:
         queries = []
         full = desc.get("mode") == "full"
         mi_all = list(range(len(matchers)))
-        mi_small = [1, 3, 5, 6, n_re, n_re + 2, n_re + 5, n_re + n_pr]
+        mi_small = [1, 3, 6, n_re, n_re + 2, n_re + 5, n_re + n_pr]
+        if later:          # after a mutation: every tree-wide search again, a thinner node-level sweep
+            mi_small = [mi_small[0], mi_small[3]]
+            data_objs = [o for o in data_objs if any(n._data is o for n in nodes)][:2] or data_objs[:1]
+            did_args = did_args[:2]
         for p in range(len(nodes)):
-            for mi in (mi_small if full else mi_all):
+            for mi in (mi_small if (full or later) else mi_all):
                 queries.append(("NFA", p, None, mi, None, ks))
                 queries.append(("nff", p, None, mi, None))
-            for o in data_objs:
+            # absent / falsy data and data_ids from the first node only; from the others what the tree carries
+            for o in (data_objs if p == 0 or not full else [o for o in data_objs if any(n._data is o for n in nodes)]):
                 queries.append(("NFA", p, o, None, None, ks))
                 queries.append(("nff", p, o, None, None))
-            for d in did_args:
+            for d in (did_args if p == 0 or not full else present_dids[:5]):
                 queries.append(("NFA", p, None, None, d, ks))
                 queries.append(("nff", p, None, None, d))
             queries.append(("clones", p))
+            if later:
+                continue
             # argument conflicts and the bare call
             queries.append(("NFA", p, None, None, None, [None]))
             queries.append(("NFA", p, data_objs[0], None, 7, [None]))
             queries.append(("NFA", p, None, 0, 7, [1]))
             queries.append(("nff", p, data_objs[0], 0, None))
-        for mi in mi_all:
+        for mi in (mi_all[::2] if later else mi_all):      # after a mutation: every second matcher tree-wide
             queries.append(("TFA", None, mi, None, ks))
             queries.append(("tff", None, mi, None, None))
         for o in data_objs:
@@ -444,9 +601,10 @@ class Prop:
         keys = [("obj", i) for i in range(len(desc["univ"])) if any(U.objs[i] is o for o in data_objs)]
         keys += [("lit", d) for d in did_args if isinstance(d, (int, str))]
         keys += [("nodeid", p) for p in range(min(len(nodes), 6))]
-        keys += [("lit", v) for v in (3, 7, 0, 99)] + [("lit", True), ("float", 7.0), ("float", 3.5), ("tuple", (9, 9)), ("none",)]
-        if nodes:
-            keys += [("node", 0), ("node", len(nodes) - 1)]
+        if not later:
+            keys += [("lit", v) for v in (3, 7, 0, 99)] + [("lit", True), ("float", 7.0), ("float", 3.5), ("tuple", (9, 9)), ("none",)]
+            if nodes:
+                keys += [("node", 0), ("node", len(nodes) - 1)]
         for kq in keys:
             queries.append(("get", kq))
             queries.append(("in", kq))
@@ -455,13 +613,16 @@ class Prop:
             keep = [q for q in queries if q[0] in ("get", "in", "clones")]
             rest = [q for q in queries if q[0] not in ("get", "in", "clones")]
             qr.shuffle(rest)
-            queries = rest[: desc.get("nq", 60)] + keep
+            # after a mutation the tree-wide pattern / predicate searches come first
+            tfirst = [q for q in rest if later and q[0] in ("TFA", "tff") and q[2] is not None][:14]
+            rest = [q for q in rest if q not in tfirst]
+            queries = tfirst + rest[: desc.get("nq", 60) // (2 if later else 1)] + keep
         dels = [kq for kq in keys if kq[0] in ("obj", "nodeid", "lit")]
         qr2 = random.Random(desc.get("qseed", 1) + len(nodes))
         qr2.shuffle(dels)
         st0 = dict(tree=tree, U=U, nodes=nodes, desc=desc)
         ndel = 0
-        for kq in dels + ([("node", 0)] if nodes else []) + [("none",)]:
+        for kq in ([] if later else dels + ([("node", 0)] if nodes else []) + [("none",)]):   # del rebuilds the tree: phase 0 only
             if kq[0] not in ("node", "none"):
                 if ndel >= (4 if full else 6):
                     continue
@@ -516,11 +677,9 @@ class Prop:
         shuffled = any([lid(x) for x in tree._nodes_by_data_id.get(n._data_id, [])] != [lid(x) for x in g]
                        for (_, _), g in groups.items() for n in g[:1])
         nerr = str(obs).count('[1, ')
-        return Case(desc=desc, coq_input=coq_input, impl_obs=[True, obs], oracle_fail="; ".join(fails) or None,
-                    nontrivial=len(nodes) >= 3 and maxg >= 2,
-                    key=H.digest([desc["univ"], desc["nodes"], desc.get("ops"), desc.get("calc"), desc.get("typed"), desc.get("rev")]),
-                    stats=dict(nodes=len(nodes), max_clone_group=maxg, index_order_differs=shuffled,
-                               queries=(nsub // 100) * 100, error_answers=(nerr // 10) * 10,
+        return dict(coq=coq_input, obs=obs, fails=fails, nsub=nsub,
+                    stats=dict(_nontrivial=len(nodes) >= 3 and maxg >= 2, nodes=len(nodes), max_clone_group=maxg,
+                               index_order_differs=shuffled, error_answers=(nerr // 10) * 10,
                                calc=str(desc.get("calc")), typed=bool(desc.get("typed"))))
 
     def oracle_resolves_to(self, st, kq, n):
@@ -816,6 +975,15 @@ def _drop_one(nodes):
             for sub in _drop_one(n[3]):
                 yield nodes[:i] + [[n[0], n[1], n[2], sub] + n[4:]] + nodes[i + 1:]
 
+
+# query - mutate - query again on ONE tree object (re-ordering and re-keying mutators only)
+PHASES = [
+    [[["mv", -1, -1, 0]], [["sort", False, True]]],                         # last created node becomes the first top node; then sort
+    [[["sort", True, True]], [["mv", 1, -1, None], ["sortc", 0, True, False]]],
+    [[["setdata", 0, 1, None, True]], [["rename", 1, "a"], ["mv", 2, 0, 0]]],
+    [[["setid", 1, 7, True], ["sortc", 0, True, True]], [["mv", 0, -1, None]]],
+    [[["mv", 2, -1, 0], ["mv", 1, -1, 0]]],
+]
 
 CORPUS = [
     # D26: Tree.find_all(data, max_results=k) sliced the wrong way and returned the live index list
